@@ -161,6 +161,11 @@ def run(ctx):
             cs, regime = ind.candles_for(r, steps + 1, regime=regime)
             cls = PsarCase if name == "ParabolicSAR" else VCase
             cases.append(cls(t, r.choice(valid_sets(t, r, 2)), cs[0], cs[1:], "values-model-only", {"regime": regime}, with_spec=False))
+    # long monotone legs: a trend with many consecutive new extremes (acceleration of the parabolic SAR up to its cap and beyond)
+    r = ctx.rng.fork("c05-trend")
+    tc = gens.trend_candles(r, [(60, 0.004), (45, -0.005), (80, 0.01)])
+    for sets in ([], [("af_step", "0.01"), ("af_max", "0.5")]):
+        cases.append(PsarCase(tabs["ParabolicSAR"], sets, tc[0], tc[1:], "values-trend", {"regime": "monotone-legs"}, with_spec=False))
     ctx.run_suite("indicator-values", cases, HEADER, per_shard=3, theorem="Properties/C05.v")
     if ctx.tier == "thorough":
         ctx.run_suite("indicator-values-release", cases, HEADER, profile="release", model=False)
